@@ -1317,6 +1317,26 @@ func (w *qWorld) opRestart(op Op) {
 		}
 	}
 	w.pending = nil
+	// Administrative operations that were still in progress when the shutdown was
+	// requested were not "acknowledged before it": whether their effect is part of
+	// what survives is open (nsqd skips the metadata write of a creation that
+	// arrives after the shutdown began, and still answers 200). Existence and
+	// flags of their targets are adopted from the restarted daemon.
+	for _, o := range w.burstOps {
+		if o.Kind != "admin" {
+			continue
+		}
+		topic := w.topicName(o.A)
+		t := w.topic(topic)
+		t.ExistUnknown, t.Tainted = true, true
+		for _, c := range w.chans {
+			if c.Topic == topic {
+				c.Uncertain = true
+			}
+		}
+		w.channel(topic, w.chanName(o.B)).Uncertain = true
+		rc.Probe("admin_op_racing_exit")
+	}
 	// clients give up on a daemon that is shutting down (a connection accepted
 	// just as the TCP server closes its clients is otherwise never closed by
 	// nsqd and Exit waits for it indefinitely - DESIGN.md, observations)
@@ -1382,6 +1402,8 @@ func (w *qWorld) opRestart(op Op) {
 		return
 	}
 	rc.Probe("restarts")
+	w.burstOps = nil
+	w.resolveUncertain()
 	if doc, _ := w.getStats(""); doc != nil {
 		for _, t := range doc.Topics {
 			for _, c := range t.Channels {
